@@ -60,6 +60,14 @@ func VerifyNameErrorNSEC(msg *dns.Msg, nsecSet []dns.RR) error {
 	if covering == nil {
 		return ErrNSECMissingCoverage
 	}
+	if nsecBelowZoneCut(qname, nsecSet) {
+		return ErrNSECBadDelegation
+	}
+	// A next name below QNAME makes QNAME an empty non-terminal: it sorts
+	// inside the interval, but it exists (RFC 4035 §5.4, RFC 8198 App. B).
+	if nsecNextBelow(covering, qname) {
+		return ErrNSECMissingCoverage
+	}
 
 	ce := closestEncloserFromNSEC(qname, covering)
 	if ce == "" {
@@ -81,6 +89,31 @@ func VerifyNameErrorNSEC(msg *dns.Msg, nsecSet []dns.RR) error {
 		}
 	}
 	return ErrNSECMissingCoverage
+}
+
+// nsecBelowZoneCut reports whether nsecSet holds an NSEC owned by a proper
+// ancestor of name that marks a zone cut (NS without SOA) or a DNAME there.
+// Such a record is the parent's side of the cut: RFC 6840 §4.1 forbids using
+// it to assume the nonexistence of anything below its owner, and names under
+// a DNAME are redirected, not absent. The NSEC3 and RFC 8198 paths apply the
+// same rule (validateNSEC3ClosestEncloser, classifyAggressiveNSECName).
+func nsecBelowZoneCut(name string, nsecSet []dns.RR) bool {
+	for _, rr := range nsecSet {
+		nsec := rr.(*dns.NSEC)
+		owner := nsec.Header().Name
+		if dns.CountLabel(owner) >= dns.CountLabel(name) || !dnsname.Sub(owner, name) {
+			continue
+		}
+		if aggressiveDelegationBitmap(nsec.TypeBitMap) || typesSet(nsec.TypeBitMap, dns.TypeDNAME) {
+			return true
+		}
+	}
+	return false
+}
+
+// nsecNextBelow reports whether nsec's next name lies strictly below name.
+func nsecNextBelow(nsec *dns.NSEC, name string) bool {
+	return dns.CountLabel(nsec.NextDomain) > dns.CountLabel(name) && dnsname.Sub(name, nsec.NextDomain)
 }
 
 // closestEncloserFromNSEC derives the closest encloser of qname from the
@@ -165,6 +198,13 @@ func VerifyNODATANSEC(msg *dns.Msg, nsecSet []dns.RR) error {
 				return ErrNSECBadDelegation
 			}
 
+			// The converse (RFC 6840 §4.1): the parent's NSEC at a
+			// zone cut speaks for DS only. Every other type at that
+			// owner lives in the child.
+			if q.Qtype != dns.TypeDS && aggressiveDelegationBitmap(nsec.TypeBitMap) {
+				return ErrNSECBadDelegation
+			}
+
 			return nil
 		}
 	}
@@ -187,6 +227,9 @@ func VerifyNODATANSEC(msg *dns.Msg, nsecSet []dns.RR) error {
 	}
 	if covering == nil {
 		return ErrNSECMissingCoverage
+	}
+	if nsecBelowZoneCut(qname, nsecSet) {
+		return ErrNSECBadDelegation
 	}
 	ce := closestEncloserFromNSEC(qname, covering)
 	if ce == "" {
